@@ -360,7 +360,8 @@ func toValue(value interface{}) Value {
 		case reflect.Uint64:
 			return Value{kind: valueNumber, value: value.Uint()}
 		case reflect.Float32:
-			return Value{kind: valueNumber, value: float32(value.Float())}
+			// float32 is kept widened, as for a plain float32 (Value.float64 has no float32 case)
+			return Value{kind: valueNumber, value: value.Float()}
 		case reflect.Float64:
 			return Value{kind: valueNumber, value: value.Float()}
 		case reflect.String:
